@@ -18,7 +18,7 @@ ASSUMPTIONS = ['CPython -O/-OO semantics observed, not modelled', 'float32 vs fl
 
 class Server:
     def __init__(self, flags):
-        env = dict(os.environ, PYTHONPATH='/repo', FGGS_VERIF=os.environ.get('FGGS_VERIF', '1'))
+        env = dict(os.environ, PYTHONPATH=os.environ.get('FGGS_REPO', '/repo'), FGGS_VERIF=os.environ.get('FGGS_VERIF', '1'))
         self.p = subprocess.Popen([sys.executable, *flags, str(VERIF / 'harness' / 'o_server.py'), str(VERIF)],
                                   stdin=subprocess.PIPE, stdout=subprocess.PIPE, stderr=subprocess.DEVNULL, text=True, bufsize=1, env=env)
 
@@ -136,8 +136,8 @@ def cli(ctx, shape, recursive, linear):
             f = os.path.join(d, 'g.json')
             with open(f, 'w') as fh:
                 json.dump(jj, fh)
-            cmd = [sys.executable, '-OO', '/repo/bin/sum_product.py', f, '-d', '-m', method, '-l', '1e-10', '-k', '3000', '-G'] + (['-j'] if jp else []) + extra
-            env = dict(os.environ, PYTHONPATH='/repo')
+            cmd = [sys.executable, '-OO', os.environ.get('FGGS_REPO', '/repo') + '/bin/sum_product.py', f, '-d', '-m', method, '-l', '1e-10', '-k', '3000', '-G'] + (['-j'] if jp else []) + extra
+            env = dict(os.environ, PYTHONPATH=os.environ.get('FGGS_REPO', '/repo'))
             r = subprocess.run(cmd, capture_output=True, text=True, env=env, timeout=600)
         ctx.evaluations += 1
         ctx.count(f'cli.{variant}')
